@@ -82,29 +82,128 @@ def check_offset(y, m, d, t, c):
 
 
 def check_override(y, m, c, k):
+    """An explicit leap_seconds value replaces the table value, on construction and on read-back,
+    whether or not utc=True is given next to it."""
     out = []
     args = (y, m, 15, 12, 0, 0.0)
-    try:
-        a = Epoch(*args, leap_seconds=k)
-        b = Epoch(*args)
-        got = (Fraction(a.jde()) - Fraction(b.jde())) * 86400
-    except Exception as ex:
-        return [("override", "Epoch(%r, leap_seconds=%r) raised %r" % (args, k, ex), None)]
     exp = Fraction("42.184") + k if y >= 1972 else Fraction(0)
-    dev = abs(float(got - exp))
-    if dev > 1e-3:
-        out.append(("override", "leap_seconds=%r offset at %r = %.4f s, expected %.3f s"
-                    % (k, args, float(got), float(exp)), dev))
-    try:
-        yy, mm, dd, hh, mmi, ss = a.get_full_date(leap_seconds=k)
-        diff = civil_seconds(yy, mm, dd, hh, mmi, ss) - civil_seconds(*args)
-        dev = abs(float(diff))
+    for lab, kw in (("", {"leap_seconds": k}), ("+utc", {"leap_seconds": k, "utc": True})):
+        try:
+            a = Epoch(*args, **kw)
+            b = Epoch(*args)
+            got = (Fraction(a.jde()) - Fraction(b.jde())) * 86400
+        except Exception as ex:
+            out.append(("override", "Epoch(%r, **%r) raised %r" % (args, kw, ex), None))
+            continue
+        dev = abs(float(got - exp))
         if dev > 1e-3:
-            out.append(("override_readback", "get_full_date(leap_seconds=%r) of Epoch(%r, leap_seconds=%r) "
-                        "is %.4f s off" % (k, args, k, float(diff)), dev))
-    except Exception as ex:
-        out.append(("override_readback", "get_full_date(leap_seconds=%r) raised %r" % (k, ex), None))
+            out.append(("override" + lab, "%r offset at %r = %.4f s, expected %.3f s"
+                        % (kw, args, float(got), float(exp)), dev))
+        for lab2, kw2 in (("", {"leap_seconds": k}), ("+utc", {"leap_seconds": k, "utc": True})):
+            if lab != lab2 and lab:
+                continue
+            try:
+                yy, mm, dd, hh, mmi, ss = a.get_full_date(**kw2)
+                diff = civil_seconds(yy, mm, dd, hh, mmi, ss) - civil_seconds(*args)
+                dev = abs(float(diff))
+                if dev > 1e-3:
+                    out.append(("override_readback" + lab2, "get_full_date(**%r) of Epoch(%r, **%r) "
+                                "is %.4f s off" % (kw2, args, kw, float(diff)), dev))
+            except Exception as ex:
+                out.append(("override_readback" + lab2, "get_full_date(**%r) raised %r" % (kw2, ex), None))
     return out
+
+
+# -- the leap-second API as a state machine ---------------------------------------------------
+
+API_OPS = [
+    ("last", lambda: Epoch.get_last_leap_second()),
+    ("ls_2017", lambda: Epoch.leap_seconds(2017, 1)),
+    ("ls_2040", lambda: Epoch.leap_seconds(2040, 7)),
+    ("ls_1972_6", lambda: Epoch.leap_seconds(1972, 6)),
+    ("ls_1960", lambda: Epoch.leap_seconds(1960, 1)),
+    ("read_local", lambda: Epoch(2457754.5).get_full_date(local=True)),
+    ("tt2ut", lambda: Epoch.tt2ut(2017, 1)),
+    ("build_utc", lambda: Epoch(2017, 1, 1, utc=True).jde()),
+    ("read_utc", lambda: Epoch(2457754.5).get_full_date(utc=True)),
+    ("build_override", lambda: Epoch(2017, 1, 1, leap_seconds=3).jde()),
+]
+_API_EXPECT = None
+
+
+def api_view():
+    """What a user can see of the leap-second history: the whole step function at the insertion
+    months and around them, the last insertion, and one construction/read-back each side of it."""
+    v = []
+    for (y, m) in iers.INSERTIONS:
+        py, pm = (y, m - 1) if m > 1 else (y - 1, 12)
+        v.append(Epoch.leap_seconds(y, m))
+        v.append(Epoch.leap_seconds(py, pm))
+    v.append(Epoch.leap_seconds(1971, 12))
+    v.append(Epoch.leap_seconds(2100, 12))
+    v.append(tuple(Epoch.get_last_leap_second()))
+    v.append(Epoch(2017, 1, 1, utc=True).jde())
+    v.append(Epoch(2016, 12, 1, utc=True).jde())
+    v.append(tuple(Epoch(2457754.5).get_full_date(utc=True)))
+    return tuple(v)
+
+
+def api_expected():
+    v = []
+    for (y, m) in iers.INSERTIONS:
+        c = sum(1 for ym in iers.INSERTIONS if ym <= (y, m))
+        v.append(c)
+        v.append(c - 1)
+    v.append(0)
+    v.append(len(iers.INSERTIONS))
+    return tuple(v)
+
+
+def check_api_history(hist):
+    """Run the operations of ``hist`` in order; after each, everything visible of the leap-second
+    history must be what the IERS list gives and what it was before the history started."""
+    ops = dict(API_OPS)
+    first = api_view()
+    exp = api_expected()
+    out = []
+    if first[:len(exp)] != exp:
+        out.append("leap-second view before the history differs from the IERS list: %r" % (first[:len(exp)],))
+    if first[len(exp)][:3] != (2016, 12, 31) and first[len(exp)][:2] != (2017, 1):
+        out.append("get_last_leap_second() = %r" % (first[len(exp)],))
+    for i, name in enumerate(hist):
+        try:
+            ops[name]()
+        except Exception as ex:
+            out.append("operation %s raised %r" % (name, ex))
+            break
+        v = api_view()
+        if v != first:
+            bad = [j for j in range(len(v)) if v[j] != first[j]]
+            out.append("after %r the leap-second history reads differently at view positions %r "
+                       "(e.g. %r instead of %r)" % (hist[:i + 1], bad[:4], v[bad[0]], first[bad[0]]))
+            break
+    return out
+
+
+def run_api(block, ctx):
+    import importlib
+    import pymeeus.Epoch as EM
+    for hist in block:
+        ctx.evals += len(hist) + 1
+        ctx.traces += 1
+        ctx.transitions += len(hist)
+        ctx.states += 1
+        if len(set(hist)) > 1 or len(hist) == 1:
+            ctx.nt_count += 1
+        msgs = check_api_history(hist)
+        for msg in msgs:
+            ctx.viol({"history": list(hist)}, msg, site="api_history")
+        if msgs:
+            importlib.reload(EM)        # do not let one broken history poison the next
+            globals()["Epoch"] = EM.Epoch
+        ctx.outcome(hist[-1] if hist else "")
+        ctx.obs(hist, not msgs)
+    ctx.sample({"history": list(block[0])})
 
 
 def run_states(block, ctx):
@@ -129,7 +228,7 @@ def run_states(block, ctx):
                     ctx.viol({"y": y, "m": m, "d": d, "h": t[0], "count": c,
                               "last_day": d == L}, msg, dev=dev, site=site)
         for k in range(0, 61):
-            ctx.evals += 1
+            ctx.evals += 2
             for site, msg, dev in check_override(y, m, c, k):
                 ctx.viol({"y": y, "m": m, "count": c, "override": k}, msg, dev=dev, site=site)
         ctx.outcome(c)
@@ -221,7 +320,13 @@ def clauses(tier):
         extra = [Clause("every_day", chunks(list(range(1969, 2022)), 53), run_days,
                         lambda c: [x[1] for x in check_offset(c["y"], c["m"], c["d"], (c["h"], 59 if c["h"] else 0, c.get("s", 0.0)), c["count"])],
                         floor=10000, shape="S")]
+    import itertools
+    names = [n for n, _ in API_OPS]
+    depth = 4 if tier == "thorough" else 3
+    hists = [h for d in range(1, depth + 1) for h in itertools.product(names, repeat=d)]
     return extra + [
+        Clause("api_history", chunks(hists, 16), run_api, lambda c: check_api_history(tuple(c["history"])),
+               floor=100, shape="H"),
         Clause("automaton", chunks(st, 48), run_states, replay_states, floor=1000, shape="S"),
         Clause("delta_t", chunks(list(range(-2000, 3001)), 16), run_dt,
                lambda c: [x[1] for x in check_dt(c["y"], c["m"])], floor=10000, shape="S"),
